@@ -3,6 +3,7 @@ package rules
 import (
 	"fmt"
 	"go/token"
+	"sort"
 	"strings"
 
 	"bxhlint/core"
@@ -113,6 +114,71 @@ func C10(c *Ctx) {
 	r.Rule("R10.5", "the root commits to what the database holds: every Put / Delete that SimpleLedger.Commit issues on the state batch uses a key built by one of the ledger's key constructors (composeStateKey, compositeKey), and for each data kind written (account record, code, storage key) the Put and the Delete use the same constructor; a change that is hashed into the root but written under another key leaves the database behind the root.")
 	r.Rule("R10.6", "the journal and state hash see every key the block touched (shared with C13 R13.6): no function of internal/ledger removes an entry from an account's dirty set; a removed entry is skipped by getStateJournalAndComputeHash and Commit, so the root no longer commits to a deletion or overwrite the block executed.")
 	c.c13Undo("R10.6")
+	r.Rule("R10.7", "sibling loaders agree: every path of SimpleLedger.GetAccount that registers a loaded account (l.accounts[addr] = account) has initialised the same set of account fields, whether the record came from the account cache or from the database; a field set on one path only makes the journal and the state hash of a block depend on cache history (a warm node and a restarted node compute different roots).")
+	if ga := c.fn("R10.7", "internal/ledger.(*SimpleLedger).GetAccount"); ga != nil {
+		type reg struct {
+			in     ssa.Instruction
+			fields []string
+		}
+		var regs []reg
+		for _, in := range sites(ga, func(in ssa.Instruction) bool {
+			mu, ok := in.(*ssa.MapUpdate)
+			return ok && core.Mentions(mu.Map, fieldNamed("accounts"))
+		}) {
+			mu := in.(*ssa.MapUpdate)
+			obj := core.Strip(mu.Value)
+			set := map[string]bool{}
+			for _, b := range ga.Blocks {
+				for _, x := range b.Instrs {
+					// a helper of the ledger that receives the account and initialises fields of it
+					if call, isCall := x.(ssa.CallInstruction); isCall {
+						g := core.StaticCallee(call)
+						if g == nil || len(g.Blocks) == 0 || core.PkgOf(g) != ledgerPkg || g.Name() == "newAccount" {
+							continue
+						}
+						for ai, a := range call.Common().Args {
+							if core.Strip(a) != obj || ai >= len(g.Params) || !core.Reach([]core.Point{core.After(x)}, nil, nil).Has(in) {
+								continue
+							}
+							for _, gb := range g.Blocks {
+								for _, y := range gb.Instrs {
+									if gst, ok := y.(*ssa.Store); ok {
+										if _, f, base, okf := core.FieldOf(gst.Addr); okf && core.Strip(base) == ssa.Value(g.Params[ai]) {
+											set[f] = true
+										}
+									}
+								}
+							}
+						}
+						continue
+					}
+					st, ok := x.(*ssa.Store)
+					if !ok {
+						continue
+					}
+					_, f, base, okf := core.FieldOf(st.Addr)
+					if !okf || core.Strip(base) != obj {
+						continue
+					}
+					if core.Reach([]core.Point{core.After(st)}, nil, nil).Has(in) {
+						set[f] = true
+					}
+				}
+			}
+			var fs []string
+			for f := range set {
+				fs = append(fs, f)
+			}
+			sort.Strings(fs)
+			regs = append(regs, reg{in, fs})
+		}
+		r.Floor("R10.7", "load paths of GetAccount", len(regs), 2)
+		for i, rg := range regs {
+			same := strings.Join(rg.fields, ",") == strings.Join(regs[0].fields, ",")
+			r.Check(same, "R10.7", fmt.Sprintf("GetAccount: load path #%d initialises the same fields as path #1", i+1), c.P.Pos(rg.in.Pos()), "fields: "+strings.Join(rg.fields, ","),
+				"this load path initialises {"+strings.Join(rg.fields, ",")+"}, the first one {"+strings.Join(regs[0].fields, ",")+"}: an account loaded through one layer differs from the same account loaded through the other (e.g. dirtyCode unset), so what a block journals and hashes depends on whether the account cache was warm")
+		}
+	}
 	c.commitKeyDiscipline("R10.5")
 
 	type target struct{ spec, what string }
